@@ -95,7 +95,7 @@ class Model:
                     d = pickle.load(fh)
                 ex.live, ex.store, ex.transitions, ex.stats = d['live'], d['store'], d['transitions'], d['stats']
                 for t in ex.transitions:
-                    t['pre'] = ex.store[t['from_key']][0]
+                    t['pre'] = t.get('pre_env') or ex.store[t['from_key']][0]
                 self.timing['fsm_%s_cached' % which] = True
                 setattr(self, which, ex)
                 return ex
